@@ -129,8 +129,16 @@ func c02App(g c02Cfg) *app.App {
 	if g.MSink {
 		code = append(code, codec.Ins{Op: codec.MSINK})
 	}
-	code = append(code, codec.Ins{Op: codec.HALT}, codec.Ins{Op: codec.INCMP, Sym: ">", Sel: "11"}, codec.Ins{Op: codec.INCMP, Sym: "<", Sel: "22"})
+	code = append(code, codec.Ins{Op: codec.HALT}, codec.Ins{Op: codec.INCMP, Sym: ">", Sel: "11"}, codec.Ins{Op: codec.INCMP, Sym: "<", Sel: "22"}, codec.Ins{Op: codec.INCMP, Sym: "two", Sel: "77"})
 	a.Node("root", tpl, code...)
+	// a second node with a sink of the OTHER kind, to be visited between two walks of the entry node
+	if g.MSink {
+		a.Node("two", "<{{.other}}>", codec.Ins{Op: codec.LOAD, Sym: "other", N: 0}, codec.Ins{Op: codec.MAP, Sym: "other"}, codec.Ins{Op: codec.HALT}, codec.Ins{Op: codec.INCMP, Sym: "_", Sel: "88"})
+	} else {
+		a.Node("two", "two", codec.Ins{Op: codec.MOUT, Sym: "ma", Sel: "5"}, codec.Ins{Op: codec.MOUT, Sym: "mb", Sel: "6"}, codec.Ins{Op: codec.MNEXT, Sym: "nx", Sel: "11"}, codec.Ins{Op: codec.MPREV, Sym: "pv", Sel: "22"},
+			codec.Ins{Op: codec.MSINK}, codec.Ins{Op: codec.HALT}, codec.Ins{Op: codec.INCMP, Sym: "_", Sel: "88"}, codec.Ins{Op: codec.INCMP, Sym: ">", Sel: "11"}, codec.Ins{Op: codec.INCMP, Sym: "<", Sel: "22"})
+	}
+	a.Func("other", constFunc("x\ny\nz"))
 	a.Node("_catch", "CATCH", codec.Ins{Op: codec.HALT}, codec.Ins{Op: codec.INCMP, Sym: "_", Sel: "*"})
 	content := g.content()
 	a.Func("items", func(e *app.Env, sym string, in []byte, l string) (resource.Result, error) {
@@ -372,6 +380,36 @@ func c02Walk(g c02Cfg, vis func(pages int, vacuous bool)) (sig, msg string, reqs
 		}
 		if r.ExecErr == "" && r.FlushErr == "" && !isCatch(r) {
 			return "before-first-content", fmt.Sprintf("previous on page 0 answered with %q", r.Out), reqs
+		}
+	}
+	// revisit: page 0, over to the node with the other kind of sink, back, and the whole walk again
+	{
+		if g.Mode == "persisted" {
+			s = app.NewSession(a, engine.Config{SessionId: "s3", OutputSize: g.Size}, app.Persisted)
+			s.Open = app.MemStore()
+			s.FinishOnError = true
+		} else {
+			s = app.NewSession(a, engine.Config{OutputSize: g.Size}, app.LongLived)
+		}
+		r0 := s.Request([]byte(""))
+		r1 := s.Request([]byte("77"))
+		reqs += 2
+		if r0.Panic != "" || r1.Panic != "" {
+			return "panic", fmt.Sprintf("visiting the second sink node: panic %s%s", r0.Panic, r1.Panic), reqs
+		}
+		if r1.ExecErr == "" && (r1.FlushErr == "" || g.Mode == "persisted") {
+			in := "88"
+			for i := 0; i < n; i++ {
+				r := s.Request([]byte(in))
+				reqs++
+				in = "11"
+				if r.Panic != "" {
+					return "panic", fmt.Sprintf("revisit page %d: panic %s", i, r.Panic), reqs
+				}
+				if r.Out != pages[i].raw {
+					return "revisit-differs", fmt.Sprintf("after a visit to a node with another sink, page %d is %q (exec=%q flush=%q); the first walk gave %q", i, r.Out, r.ExecErr, r.FlushErr, pages[i].raw), reqs
+				}
+			}
 		}
 	}
 	return "", "", reqs
